@@ -8,6 +8,9 @@ as it does on the real tree.
 
   T0 reformat      ast.unparse(ast.parse(src))                     (layout, comments, quotes, parentheses)
   T1 alpha         consistent renaming of function-local variables  (x -> x_)
+  T18 guard-invert trailing `if C: BODY` -> `if not C: return|continue` + BODY
+  T17 debug-log    `_LOGGER.debug("entering f")` inserted at the top of every function of modules with a _LOGGER
+  T16 bool-return  `if C: return True` / `return False` -> `return C`
   T15 swap-eq      `a == b` -> `b == a` (call-free operands)
   T2 swap-else     `if c: A else: B`  ->  `if not c: B else: A`     (no elif chains)
   T3 demorgan      `not a and not b` -> `not (a or b)`, `not a or not b` -> `not (a and b)`
@@ -79,6 +82,89 @@ class SwapEq(ast.NodeTransformer):
         self.generic_visit(node)
         if len(node.ops) == 1 and isinstance(node.ops[0], (ast.Eq, ast.NotEq)) and _pure_operand(node.left) and _pure_operand(node.comparators[0]):
             return ast.Compare(left=node.comparators[0], ops=node.ops, comparators=[node.left])
+        return node
+
+
+def _boolean_valued(e: ast.AST) -> bool:
+    if isinstance(e, ast.Compare):
+        return True
+    if isinstance(e, ast.UnaryOp) and isinstance(e.op, ast.Not):
+        return True
+    if isinstance(e, ast.BoolOp):
+        return all(_boolean_valued(v) for v in e.values)
+    return False
+
+
+class BoolReturn(ast.NodeTransformer):
+    """T16: `if C: return True` + `return False` -> `return C` (and the negated twin) when C is boolean-valued."""
+    def _rewrite(self, body: list) -> list:
+        out = []
+        i = 0
+        while i < len(body):
+            st = body[i]
+            nxt = body[i + 1] if i + 1 < len(body) else None
+            if isinstance(st, ast.If) and not st.orelse and len(st.body) == 1 and isinstance(st.body[0], ast.Return) \
+                    and isinstance(st.body[0].value, ast.Constant) and isinstance(st.body[0].value.value, bool) \
+                    and isinstance(nxt, ast.Return) and isinstance(nxt.value, ast.Constant) and isinstance(nxt.value.value, bool) \
+                    and st.body[0].value.value != nxt.value.value and _boolean_valued(st.test) and not _has_walrus(st.test):
+                val = st.test if st.body[0].value.value else ast.UnaryOp(op=ast.Not(), operand=st.test)
+                out.append(ast.Return(value=val))
+                i += 2
+                continue
+            out.append(st)
+            i += 1
+        return out
+
+    def generic_visit(self, node):
+        super().generic_visit(node)
+        for field in ("body", "orelse", "finalbody"):
+            seq = getattr(node, field, None)
+            if isinstance(seq, list) and seq and isinstance(seq[0], ast.stmt):
+                setattr(node, field, self._rewrite(seq))
+        return node
+
+
+class GuardInvert(ast.NodeTransformer):
+    """T18: an else-less `if C: BODY` that is the LAST statement of a function (implicit return None) or of a for/while
+    body becomes the early-exit form `if not C: return|continue` + BODY."""
+    def _last_if(self, seq: list, exit_stmt) -> list:
+        if seq and isinstance(seq[-1], ast.If) and not seq[-1].orelse and not _has_walrus(seq[-1].test) and len(seq[-1].body) >= 2:
+            st = seq[-1]
+            guard = ast.If(test=ast.UnaryOp(op=ast.Not(), operand=st.test), body=[exit_stmt], orelse=[])
+            return seq[:-1] + [guard] + st.body
+        return seq
+
+    def visit_FunctionDef(self, node: ast.FunctionDef):
+        self.generic_visit(node)
+        if not any(isinstance(n, (ast.Yield, ast.YieldFrom)) for n in ast.walk(node)):
+            node.body = self._last_if(node.body, ast.Return(value=None))
+        return node
+
+    def visit_For(self, node: ast.For):
+        self.generic_visit(node)
+        if not node.orelse:
+            node.body = self._last_if(node.body, ast.Continue())
+        return node
+
+
+class AddDebugLog(ast.NodeTransformer):
+    """T17: a `_LOGGER.debug("entering …")` as first statement (after the docstring) of every function of a module that has _LOGGER."""
+    def __init__(self):
+        self.has_logger = False
+
+    def visit_Module(self, node: ast.Module):
+        self.has_logger = any(isinstance(st, ast.Assign) and any(isinstance(t, ast.Name) and t.id == "_LOGGER" for t in st.targets) for st in node.body)
+        self.generic_visit(node)
+        return node
+
+    def visit_FunctionDef(self, node: ast.FunctionDef):
+        self.generic_visit(node)
+        if not self.has_logger or any(isinstance(n, (ast.Yield, ast.YieldFrom)) for n in ast.walk(node)) and False:
+            return node
+        call = ast.Expr(value=ast.Call(func=ast.Attribute(value=ast.Name(id="_LOGGER", ctx=ast.Load()), attr="debug", ctx=ast.Load()),
+                                       args=[ast.Constant(value=f"entering {node.name}")], keywords=[]))
+        i = 1 if node.body and isinstance(node.body[0], ast.Expr) and isinstance(node.body[0].value, ast.Constant) and isinstance(node.body[0].value.value, str) else 0
+        node.body.insert(i, call)
         return node
 
 
@@ -463,7 +549,7 @@ def transform(name: str, src: str, filename: str) -> str:
     if name == "T1":
         return alpha_rename(src, filename)
     tr = {"T2": SwapElse, "T3": DeMorgan, "T4": IsNotNone, "T5": TempReturn, "T6": AugExtend, "T8": LoopToComp, "T9": ReturnElse,
-          "T10": FlattenElse, "T11": IfExpToStmt, "T12": HoistArg, "T14": FStringToFormat, "T15": SwapEq}[name]()
+          "T10": FlattenElse, "T11": IfExpToStmt, "T12": HoistArg, "T14": FStringToFormat, "T15": SwapEq, "T16": BoolReturn, "T17": AddDebugLog, "T18": GuardInvert}[name]()
     tree = tr.visit(ast.parse(src))
     ast.fix_missing_locations(tree)
     return ast.unparse(tree)
@@ -515,7 +601,7 @@ def main() -> int:
     ap.add_argument("-p", nargs="*", default=[])
     ap.add_argument("--keep", action="store_true")
     ns = ap.parse_args()
-    names = ns.transforms or ["T0", "T1", "T2", "T3", "T4", "T5", "T6", "T7", "T8", "T9", "T10", "T11", "T12", "T13", "T14", "T15"]
+    names = ns.transforms or ["T0", "T1", "T2", "T3", "T4", "T5", "T6", "T7", "T8", "T9", "T10", "T11", "T12", "T13", "T14", "T15", "T16", "T17", "T18"]
     props = ns.p or PROPS
     bad = 0
     for name in names:
